@@ -12,6 +12,7 @@ import (
 	"os"
 	"os/exec"
 	"path/filepath"
+	"regexp"
 	"sort"
 	"strings"
 	"sync"
@@ -31,6 +32,11 @@ type mutantSpec struct {
 	Expect  string       `json:"expect"`
 	Rule    string       `json:"rule"`
 	Edits   []mutantEdit `json:"edits"`
+	Rename  *struct {
+		Dir string `json:"dir"`
+		Old string `json:"old"`
+		New string `json:"new"`
+	} `json:"rename"`
 }
 
 func selfValidate(prop, repo, vd string, overlayActive bool) map[string]interface{} {
@@ -67,6 +73,30 @@ func selfValidate(prop, repo, vd string, overlayActive bool) map[string]interfac
 				edits = []mutantEdit{{m.File, m.Find, m.Replace}}
 			}
 			cur := map[string]string{}
+			if m.Rename != nil {
+				// identifier renamed in every non-test file of one directory
+				edits = nil
+				re := regexp.MustCompile(`\b` + regexp.QuoteMeta(m.Rename.Old) + `\b`)
+				ents, _ := os.ReadDir(filepath.Join(repo, m.Rename.Dir))
+				for _, en := range ents {
+					n := en.Name()
+					if !strings.HasSuffix(n, ".go") || strings.HasSuffix(n, "_test.go") {
+						continue
+					}
+					path := filepath.Join(repo, m.Rename.Dir, n)
+					bb, err := os.ReadFile(path)
+					if err != nil {
+						continue
+					}
+					if out := re.ReplaceAllString(string(bb), m.Rename.New); out != string(bb) {
+						cur[path] = out
+					}
+				}
+				if len(cur) == 0 {
+					out[i] = res{"stale", "identifier not found"}
+					return
+				}
+			}
 			for _, e := range edits {
 				path := filepath.Join(repo, e.File)
 				src, ok := cur[path]
